@@ -22,6 +22,7 @@ import Driver.Layers
 import Driver.Drivers
 import Driver.Boundary
 import Driver.Knobs
+import Driver.LayerOK
 open Dx Dx.Proto
 
 namespace Dx.Drv
@@ -59,6 +60,7 @@ def handlers : List (List String → Option String) :=
   , Dx.Drv.Drivers.handle
   , Dx.Drv.Boundary.handle
   , Dx.Drv.Knobs.handle
+  , Dx.Drv.LayerOK.handle
   ]
 
 def handle (line : String) : String :=
